@@ -44,6 +44,31 @@ type UnexpOnly struct {
 	hidden int
 }
 
+// an unexported field BEFORE the exported ones: the index of a field among the exported fields differs from its index in the type
+type UnexpFirst struct {
+	hidden int
+	A      int
+	K      string
+}
+
+// two distinct types with the same (package-qualified) name and different layouts: both print as "main.Rec"
+func mkRec1(k string, a int) any {
+	type Rec struct {
+		K string
+		A int
+	}
+	return Rec{K: k, A: a}
+}
+
+func mkRec2(pad, priv int, k string) any {
+	type Rec struct {
+		Pad  int
+		priv int
+		K    string
+	}
+	return Rec{Pad: pad, priv: priv, K: k}
+}
+
 // TV is the tagged value both sides read.
 type TV struct {
 	T   string // nil bool str int f64 dec ptr slice array map struct func chan unexp
@@ -254,7 +279,8 @@ func build(t *TV) (reflect.Value, bool) {
 		}
 		return st, true
 	case "unexp":
-		// K: "A" (two int fields A, a) | "K" (two string fields K, k) | "only" (one unexported int); V: the field values
+		// K: "A" (two int fields A, a) | "K" (two string fields K, k) | "only" (one unexported int) | "F" (hidden, A int; K string)
+		// | "R1" (local type Rec{K string; A int}) | "R2" (another local type Rec{Pad, priv int; K string}); V: the field values
 		fs := t.V.([]*TV)
 		geti := func(x *TV) int {
 			n, _ := strconv.Atoi(x.V.(string))
@@ -265,6 +291,12 @@ func build(t *TV) (reflect.Value, bool) {
 			return reflect.ValueOf(UnexpOnly{hidden: geti(fs[0])}), true
 		case "A":
 			return reflect.ValueOf(UnexpA{A: geti(fs[0]), a: geti(fs[1])}), true
+		case "F":
+			return reflect.ValueOf(UnexpFirst{hidden: geti(fs[0]), A: geti(fs[1]), K: unhx(fs[2].V.(string))}), true
+		case "R1":
+			return reflect.ValueOf(mkRec1(unhx(fs[0].V.(string)), geti(fs[1]))), true
+		case "R2":
+			return reflect.ValueOf(mkRec2(geti(fs[0]), geti(fs[1]), unhx(fs[2].V.(string)))), true
 		}
 		return reflect.ValueOf(UnexpK{K: unhx(fs[0].V.(string)), k: unhx(fs[1].V.(string))}), true
 	case "func":
